@@ -13,7 +13,7 @@ import random
 import time
 
 import vlib
-from rev_diag import diagnose
+from rev_diag import diagnose, diagnose_fwd
 
 MODEL_CFG = """CONSTANTS N = %(N)d MaxAr = %(MaxAr)d WithConst = %(WithConst)s KindMode = "%(KindMode)s" MaxCalls = %(MaxCalls)d
 CONSTANTS CountPerNode = %(CountPerNode)s FirstMutable = %(FirstMutable)s MutAddNoneAliases = %(MutAddNoneAliases)s
@@ -59,7 +59,31 @@ def sessions(K, MaxFault):
     return [p for p in r.printed if isinstance(p, list)], r
 
 
-def _run(pid, tier, seed, models, mutants, graph_sets, decorate, level_text, assumptions, design_rule, write=True, extra=None):
+FWD_CFG = """CONSTANTS NN = %(N)d MaxAr = %(MaxAr)d WithConst = %(WithConst)s KindMode = "%(KindMode)s" FwdFirstMutable = %(Mut)s
+SPECIFICATION Spec
+INVARIANT NoBadWrite
+INVARIANT UserSeedIntact
+INVARIANT StoredTangents
+INVARIANT NonTracersHaveNone
+INVARIANT AllApplied
+INVARIANT ImplResult
+INVARIANT TangentIsPathSum
+INVARIANT ResultIsJv
+INVARIANT ForwardEqualsReverse
+INVARIANT OnlyTracers
+PROPERTY AbsSpec
+CHECK_DEADLOCK FALSE
+"""
+FWD_MODELS = {"quick": [dict(N=4, MaxAr=2, WithConst=True, KindMode="edge")],
+              "thorough": [dict(N=4, MaxAr=3, WithConst=True, KindMode="edge"), dict(N=5, MaxAr=2, WithConst=False, KindMode="edge")]}
+
+
+def fwd_model(N, MaxAr=2, WithConst=False, KindMode="edge", mutant=False, timeout=3000):
+    c = dict(N=N, MaxAr=MaxAr, WithConst="TRUE" if WithConst else "FALSE", KindMode=KindMode, Mut="TRUE" if mutant else "FALSE")
+    return vlib.run_tlc("MCFwdImpl", cfg=FWD_CFG % c, workers=16, timeout=timeout, tag="MCFwdImpl")
+
+
+def _run(pid, tier, seed, models, mutants, graph_sets, decorate, level_text, assumptions, design_rule, write=True, extra=None, forward=False):
     t0 = time.time()
     verdict = vlib.Verdict(pid)
     states = trans = 0
@@ -114,6 +138,35 @@ def _run(pid, tier, seed, models, mutants, graph_sets, decorate, level_text, ass
                   "nodes": len(tr["args"])}
         verdict.violation(facets, {"failing_event": d[0], "reason": d[1], "trace": tr,
                                    "replay": "re-run: ./check %s --replay <this file>" % pid})
+    # ---- the forward pass of the same programs: JVP-rule applications validated against FwdAbs (spec/trace/TraceFwd.tla)
+    if forward:
+        for kw in FWD_MODELS[tier]:
+            r = vlib.tlc_must_pass(fwd_model(**kw), "FwdImpl model %s" % kw)
+            states += r.distinct
+            trans += r.generated
+            model_notes.append({"module": "MCFwdImpl", "constants": kw, "distinct": r.distinct, "generated": r.generated, "wall_s": round(r.wall, 1)})
+        r = fwd_model(mutant=True, **FWD_MODELS["quick"][0])
+        if not r.violated:
+            raise vlib.MachineryError("forward model mutant FwdFirstMutable was not rejected by TLC (vacuity guard)")
+        killed.append({"mutant": "FwdFirstMutable", "violated": r.violated})
+        facc, g3, d3, _w3, _i3 = vlib.parallel_validate("TraceFwd", files, cfg="SPECIFICATION TSpec\n", njvm=14)
+        states += d3
+        trans += g3
+        nf = 0
+        for tid in sorted(by_id):
+            tr = by_id[tid]
+            d = diagnose_fwd(tr)
+            ok = vlib.reconcile("forward trace %d %s" % (tid, d), tid in facc, d is None)
+            if not ok:
+                nf += 1
+                if tid in rejected:
+                    continue          # already reported through the reverse-pass trace of the same case
+                c = case_by_id[tid]
+                verdict.violation({"graph": tr["args"], "session": c["session"], "api": c.get("api"), "builtin": bool(c.get("builtin")),
+                                   "nodes": len(tr["args"]), "mode": "forward"},
+                                  {"failing_event": d[0] if d else -1, "reason": d[1] if d else vlib.UNNAMED, "trace": tr})
+        fwd_note = {"forward_traces_validated": len(by_id), "forward_traces_accepted": len(facc),
+                    "jvp_rule_applications_validated": sum(len(t.get("fevents", [])) for t in traces)}
     # mirror must also reject nothing TLC accepted (sampled, cheap)
     for tid in list(accepted)[:2000]:
         if diagnose(by_id[tid]) is not None:
@@ -139,6 +192,8 @@ def _run(pid, tier, seed, models, mutants, graph_sets, decorate, level_text, ass
                      "events": by_id[i]["events"][:8], "jvp": by_id[i]["jvp"]} for i in sample_ids],
         "known_findings_reobserved": verdict.known_hits,
     }
+    if forward:
+        coverage["forward_pass"] = fwd_note
     if extra:
         coverage.update(extra(verdict, coverage))
     if not write:
@@ -199,7 +254,7 @@ def c03(tier, seed, replay=None):
     return _run("C03", tier, seed, models, mutants, sets, decorate, "", ASSUME,
                 "every graph of the exported space (all DAGs with multi-edges, diamonds, dead branches, constants; contribution kinds "
                 "alias/fresh/sparse) is one case; distinct_nontrivial counts distinct (graph, session, builtin?) triples with >= 3 nodes",
-                extra=extra)
+                extra=extra, forward=True)
 
 
 def c10(tier, seed, replay=None):
@@ -246,7 +301,8 @@ def c10(tier, seed, replay=None):
         "snapshotted and compared after every later call"]
     v1, cov = _run("C10", tier, seed, models, mutants, sets, decorate, "", assume,
         "a case is (graph, session); sessions are TLC-enumerated sequences of 2..3 calls of one VJP function with cotangents from {1,3} "
-        "and an optional injected rule failure per call; distinct_nontrivial counts distinct (graph, session, builtin?) with >= 3 nodes", write=False)
+        "and an optional injected rule failure per call; distinct_nontrivial counts distinct (graph, session, builtin?) with >= 3 nodes", write=False,
+        forward=True)
     # the same property inside the rules of the built-in primitives: one VJP function applied to the whole cotangent basis and again
     from checks import rules
     v2, cov2 = rules.c10_rules(tier, seed)
